@@ -11,6 +11,7 @@ import crash_session as cs
 import l1_corr
 import l1_stream
 import c02_ended_check
+import c02_more_check
 
 LEVEL = "proof"
 MARGIN = 0.06      # two one-way delays + slack
@@ -206,6 +207,12 @@ def run(ctx):
                 "ended-without-the-peer-learning: a local close() whose three DISCONNECTs fall into a burst loss, or an outage (either direction / both) during which the side with the smaller budget gives up, "
                 "while the ended connection object stays registered (application inside its async-with block / handler busy) and the link works again: the survivor's recv, recv_unreliable, pending remote call "
                 "are released, the handler returns and the server's table is empty within ping_timeout+(resend_limit+1)*resend_timeout of that instant; resend_limit 0..4 x v0/v1; "
+                "closing phase over stream transports (lite over WebSocket / TCP): the closing phase started by disconnect() / leaving transport.connect() / RMCClient.disconnect() / the server's handler returning, "
+                "with the stream a black hole from closing write 0 / 1 or healthy, and the j-th closing write of the client / the server / either raising a stream error (seen by the writer only, or by both ends) for every j, "
+                "or the client's stream closed from outside, resend_limit 0..3: every call returns within the bound, the server's table loses the entry within the bound, later sends raise closed, the address reconnects over a new stream; "
+                "transport reuse: ONE client transport used for 20..40 connections one after the other ending by a failed handshake (unserved port, SYN lost, CONNECT lost), silence (EndOfStream leaves the block), a kick, "
+                "an application exception, cancellation - homogeneous histories longer than the port table (16 / 32) and mixed ones, UDP v0 / v1 and lite: every later session connects and echoes; "
+                "ONE server transport on which transport.serve(handler, 1, 10) is left 20+ times by an exception / cancellation (client connected, handler busy, idle): the port is served again, the orphaned client is released within the bound; "
                 "distinct non-trivial = distinct (configuration, k, mode) / (configuration, scenario parameters)")
     base = dict(fragment_size=16, resend_timeout=0.5, ping_timeout=1.0)
     cfgs = []
@@ -294,6 +301,9 @@ def run(ctx):
         ndiff += nd2
         if first is None:
             first = first2
+        # stream writes that raise in the graceful-disconnect phase; one long-lived transport used for many connections that end abnormally
+        # (harness/c02_closing.py, c02_reuse.py, c02_more_check.py) - judged on the real code
+        c02_more_check.run_families(ctx, pool)
     ctx.exhaustive = not quick
     ctx.extra["l1_session_diffs"] = ndiff
     if ndiff and not ctx.violations:
